@@ -157,10 +157,12 @@ def _eq(a, b, rtol=1e-9):
         return False
 
 
-def _ge(a, b, slack=1e-12):
+def _ge(a, b, slack=1e-12, absolute=0.0):
+    """a >= b up to rounding; `absolute` is the rounding error of the subtraction the code under test had to make
+    (an interval half-width is a difference of two numbers of the size of the result itself)"""
     import numpy as np
     a, b = _arr(a), _arr(b)
-    return bool(np.all(a >= b * (1 - slack) - 1e-300))
+    return bool(np.all(a >= b * (1 - slack) - 1e-300 - absolute))
 
 
 def _rec08(name, what, **kw):
@@ -220,14 +222,14 @@ def install_magnitude_contracts():
                     if not _eq(er, np.abs(_arr(a)) * _arr(eb)):
                         _rec08(name, 'exact-factor-does-not-scale-uncertainty-by-abs', expected=np.abs(_arr(a)) * _arr(eb), **info)
                 elif np.all(_arr(a) > 0) and np.all(_arr(b) > 0):
-                    if not _ge(er, np.abs(_arr(a)) * _arr(eb) + np.abs(_arr(b)) * _arr(ea)):
+                    if not _ge(er, np.abs(_arr(a)) * _arr(eb) + np.abs(_arr(b)) * _arr(ea), absolute=16 * np.finfo(float).eps * np.abs(_arr(a) * _arr(b))):
                         _rec08(name, 'product-uncertainty-below-first-order', **info)
             elif kind == '_truediv':
                 if ea is not None and eb is None:
                     if np.all(_arr(b) != 0) and not _eq(er, _arr(ea) / np.abs(_arr(b))):
                         _rec08(name, 'exact-divisor-does-not-scale-uncertainty-by-abs', expected=_arr(ea) / np.abs(_arr(b)), **info)
                 elif ea is not None and eb is not None and np.all(_arr(a) > 0) and np.all(_arr(b) > 0) and np.all(_arr(b) > _arr(eb)):
-                    if not _ge(er, _arr(ea) / _arr(b) + _arr(a) * _arr(eb) / _arr(b) ** 2):
+                    if not _ge(er, _arr(ea) / _arr(b) + _arr(a) * _arr(eb) / _arr(b) ** 2, absolute=16 * np.finfo(float).eps * np.abs(_arr(a) / _arr(b))):
                         _rec08(name, 'quotient-uncertainty-below-first-order', **info)
             return True
         return post
